@@ -17,8 +17,15 @@ NoDev == {}
 DevKept == {"EnvKeptOnAbort", "NestedInvokeSharesLoadedModules"}    \* on top of the code as it is
 Ideal == INSTANCE ContextInvoke WITH Dev <- NoDev
 Kept == INSTANCE ContextInvoke WITH Dev <- DevKept
-DevAsIs == {"LoadDataTableMutableWithinPage", "NestedInvokeSharesLoadedModules"}
+DevAsIs == {"LoadDataTableMutableWithinPage", "NestedInvokeSharesLoadedModules", "ContentLanguageObjectShared"}
 AsIs == INSTANCE ContextInvoke WITH Dev <- DevAsIs
+\* (round 9) class of a seeded change: the constructors of the retained libraries hand out memoised objects
+DevObjMemo == DevAsIs \cup {"HandedOutObjectsMemoised"}
+ObjMemo == INSTANCE ContextInvoke WITH Dev <- DevObjMemo
+DevObjMemoOnly == {"HandedOutObjectsMemoised"}
+ObjMemoOnly == INSTANCE ContextInvoke WITH Dev <- DevObjMemoOnly
+DevContLangOnly == {"ContentLanguageObjectShared"}
+ContLangOnly == INSTANCE ContextInvoke WITH Dev <- DevContLangOnly
 DevShared == DevAsIs \cup {"NestedSharesCallerEnv"}
 Shared == INSTANCE ContextInvoke WITH Dev <- DevShared
 DevSharedOnly == {"NestedSharesCallerEnv"}
@@ -28,7 +35,7 @@ P == Ideal!Probes
 LD == Ideal!LoadData
 LDW == {"ldset", "ljset"}
 LDR == {"ldget", "ljget"}
-All == (Ideal!Simple \cup Ideal!Nested) \ ({"timeout"} \cup LD \cup Ideal!TimeKinds)
+All == (Ideal!Simple \cup Ideal!Nested) \ ({"timeout"} \cup LD \cup Ideal!TimeKinds \cup Ideal!ObjKinds)
 D == Ideal!Disturbing \ {"timeout"}
 \* (round 8) the time limit as an option of the call: a call given a small limit, then (same page / next page /
 \* after other invocations) the slow invocation without a limit.  These histories wait for the clock of the sandbox.
@@ -42,6 +49,17 @@ LimHists(t) ==
 LDHists == { <<a, b>> : a \in LD, b \in LD }
       \cup { <<a, x, b>> : a \in LDW, x \in All \cup LD \cup {"page"}, b \in LDR }
       \cup { <<d, a, b>> : d \in D, a \in LDW, b \in LDR }
+\* (round 9) objects handed out by library constructors: obtain + write, (anything / a page break in between,) obtain the
+\* object of the same or of another request again and read; two writers (the second reports what it found); a read first
+OW == Ideal!ObjW
+OR == Ideal!ObjR
+SameObj(a, b) == Ideal!ObjKey(a) = Ideal!ObjKey(b)
+ObjBetween == {"page", "gset", "bump", "nomod", "n_bump"}
+ObjHists == { <<w, r>> : w \in OW, r \in OR }
+       \cup { <<w, v>> : w \in OW, v \in OW }
+       \cup { h \in { <<w, x, r>> : w \in OW, x \in ObjBetween, r \in OR \cup OW } : SameObj(h[1], h[3]) }
+       \cup { h \in { <<r, w, q>> : r \in OR, w \in OW, q \in OR } : SameObj(h[1], h[2]) /\ SameObj(h[2], h[3]) }
+       \cup { h \in { <<w, "page", v, "page", r>> : w \in OW, v \in OW, r \in OR } : SameObj(h[1], h[5]) /\ SameObj(h[3], h[5]) }
 ReadBack == {<<"bump", "peek">>, <<"bump", "reqbump">>, <<"gset", "rget">>, <<"sset", "sget">>}
 
 Hists(t) ==
@@ -55,6 +73,7 @@ Hists(t) ==
     \cup LDHists
     \cup { <<"timeout", "bump", "bump">> }                      \* waits for a (short) time limit
     \cup LimHists(t)
+    \cup ObjHists
   ELSE
        { <<a, b>> : a \in All, b \in All }
     \cup { <<a, b, c>> : a \in All, b \in All, c \in All }
@@ -68,6 +87,7 @@ Hists(t) ==
     \cup { <<"timeout">> \o rb : rb \in ReadBack }
     \cup { <<p, "timeout", q>> : p \in {"bump", "gset"}, q \in {"bump", "reqbump", "rget"} }
     \cup LimHists(t)
+    \cup ObjHists
 
 \* ---- nest cases ----
 Vias == {"P", "A", "T"}         \* frame:preprocess / argument expanded when read / frame:expandTemplate
@@ -123,9 +143,10 @@ Next == done = FALSE /\ done' = TRUE /\ UNCHANGED <<hist, nc>>
 Spec == Init /\ [][Next]_<<hist, nc, done>>
 Laws == Ideal!MeetsDemand(hist) /\ Ideal!CaseMeetsDemand(nc)
 EmitHist == \E o \in {Ideal!Outcomes(hist)} : \E kp \in {Kept!Outcomes(hist)} : \E ai \in {AsIs!Outcomes(hist)} :
-          \E kl \in {KeptLim!Outcomes(hist)} :
+          \E kl \in {KeptLim!Outcomes(hist)} : \E om \in {ObjMemo!Outcomes(hist)} :
           PrintT(<<"CASE", ToJson([hist |-> hist, out |-> o, kept |-> IF kp = o THEN <<>> ELSE kp,
-                                   asis |-> IF ai = o THEN <<>> ELSE ai, limkept |-> IF kl = o THEN <<>> ELSE kl])>>)
+                                   asis |-> IF ai = o THEN <<>> ELSE ai, limkept |-> IF kl = o THEN <<>> ELSE kl,
+                                   objmemo |-> IF om = ai THEN <<>> ELSE om])>>)
 EmitNest == \E o \in {Ideal!CaseOutcomes(nc)} : \E ai \in {AsIs!CaseOutcomes(nc)} : \E sh \in {Shared!CaseOutcomes(nc)} :
           PrintT(<<"NCASE", ToJson([nest |-> nc, out |-> o, asis |-> ai, shared |-> sh])>>)
 Emit == IF hist = <<>> THEN EmitNest ELSE EmitHist
@@ -136,6 +157,10 @@ DemoKept == Kept!MeetsDemand(hist)
 DemoTimeLimit == KeptLim!MeetsDemand(hist)
 \* Demo: with the per-page lifetime of the writable loadData tables some history violates the demand
 DemoLoadData == AsIs!MeetsDemand(hist)
+\* Demo: with constructors that hand out memoised objects some history violates the demand
+DemoObjMemo == ObjMemoOnly!MeetsDemand(hist)
+\* Demo: with the one content-language object of the runtime (as-is) some history violates the demand
+DemoContLang == ContLangOnly!MeetsDemand(hist)
 \* Demo: a nested invocation that runs in its caller's environment violates the demand on some nest case
 DemoNestShared == SharedOnly!CaseMeetsDemand(nc)
 \* Demo: with package.loaded shared by the nested invocations of one top-level call (as-is) some nest case violates it
